@@ -51,9 +51,9 @@ def head_cfg(model_type, strides):
             {"MultiInstanceConfmapsHead": (len(PARTS), strides[0]), "PartAffinityFieldsHead": (2 * len(EDGES), strides[1])})
 
 
-def _grid(max_strides, out_strides, stems, rates, convs, interps, middles, types):
+def _grid(max_strides, out_strides, stems, rates, convs, interps, middles, types, filters=(16,)):
     out = []
-    for ms, os_, stem, rate, cv, up, mid, mt in itertools.product(max_strides, out_strides, stems, rates, convs, interps, middles, types):
+    for ms, os_, stem, rate, cv, up, mid, mt, fl in itertools.product(max_strides, out_strides, stems, rates, convs, interps, middles, types, filters):
         if os_ > ms or (stem is not None and stem >= ms):
             continue
         # head strides strictly below max_stride: carve-out of known finding C14/head-at-max-stride
@@ -61,7 +61,7 @@ def _grid(max_strides, out_strides, stems, rates, convs, interps, middles, types
             continue
         heads = [(os_,)] if mt != "bottomup" else [(os_, os_), (os_, os_ * 2)] if os_ * 2 < ms else [(os_, os_)]
         for hs in heads:
-            out.append("ms%d|os%d|stem%s|r%s|c%d|%s|%s|%s|h%s" % (ms, os_, stem, rate, cv, "interp" if up else "convT", "mid" if mid else "nomid", mt, "-".join(map(str, hs))))
+            out.append("ms%d|os%d|stem%s|r%s|c%d|%s|%s|%s|h%s|f%d" % (ms, os_, stem, rate, cv, "interp" if up else "convT", "mid" if mid else "nomid", mt, "-".join(map(str, hs)), fl))
     return tuple(out)
 
 
@@ -77,10 +77,12 @@ class UNetModelShapes(Contract):
     rand_ranges = {"B": (1, 2), "h1": (1, 2), "w1": (1, 2), "h2": (1, 2), "w2": (1, 2), "x1": (0.0, 1.0), "x2": (0.0, 1.0)}
     # convs_per_block >= 2: carve-out of known finding C14/convs-per-block-1 (see known_findings.txt)
     cases = (_grid([16], [2], [None], [1.5, 2], [2], [True, False], [True], ["single_instance", "bottomup"])
-             + _grid([8, 32], [1, 4], [None, 2], [2], [2, 3], [True, False], [True], ["centroid", "centered_instance"])[::3])
+             + _grid([8, 32], [1, 4], [None, 2], [2], [2, 3], [True, False], [True], ["centroid", "centered_instance"])[::3]
+             # non-integer filter products (filters * 1.5**k): rounding in the channel bookkeeping
+             + _grid([16, 32], [2], [None], [1.5], [2], [True], [True], ["single_instance", "bottomup"], filters=(8, 24, 16)))
     # middle_block=True: carve-out of known finding C14/no-middle-block
-    thorough_cases = _grid([8, 16, 32], [1, 2, 4], [None, 2], [1.5, 2], [2, 3], [True, False], [True], ["single_instance", "centroid", "centered_instance", "bottomup"])
-    bounded = ("UNet family only; the configuration grid (max_stride x output_stride x stem_stride x filters_rate x convs_per_block x up_interpolate x middle_block x head type/strides) is finite "
+    thorough_cases = _grid([8, 16, 32], [1, 2, 4], [None, 2], [1.5, 2], [2, 3], [True, False], [True], ["single_instance", "centroid", "centered_instance", "bottomup"], filters=(8, 16, 24))
+    bounded = ("UNet family only; the configuration grid (max_stride x output_stride x stem_stride x filters_rate x convs_per_block x up_interpolate x middle_block x filters x head type/strides) is finite "
                "by the property and enumerated (quick: a sample; thorough: the full grid listed in the contract); input sizes and batch are symbolic",)
     not_decided = ("ConvNeXt and Swin-T backbones (torchvision model internals are outside the modelled library subset)",
                    "'in evaluation mode the output for a frame is deterministic and independent of the other frames in the batch': layer VALUES are not modelled (shape contracts only); "
@@ -88,13 +90,15 @@ class UNetModelShapes(Contract):
                    "agreement with the shapes the data pipeline produces for the targets is by the shape clauses of C01/C05 (ceil(H/stride)); not re-proved here")
 
     def inputs(self, c, case):
-        ms, os_, stem, rate, cv, up, mid, mt, hs = case.split("|")
+        parts = case.split("|")
+        ms, os_, stem, rate, cv, up, mid, mt, hs = parts[:9]
+        filters = int(parts[9][1:]) if len(parts) > 9 else 16
         ms, os_, cv = int(ms[2:]), int(os_[2:]), int(cv[1:])
         stem = None if stem == "stemNone" else int(stem[4:])
         rate = float(rate[1:])
         strides = [int(x) for x in hs[1:].split("-")]
         in_ch = 1
-        bcfg = Cfg(in_channels=in_ch, kernel_size=3, filters=16, filters_rate=(int(rate) if rate == int(rate) else rate), max_stride=ms, stem_stride=stem, middle_block=(mid == "mid"),
+        bcfg = Cfg(in_channels=in_ch, kernel_size=3, filters=filters, filters_rate=(int(rate) if rate == int(rate) else rate), max_stride=ms, stem_stride=stem, middle_block=(mid == "mid"),
                    up_interpolate=(up == "interp"), stacks=1, convs_per_block=cv, output_stride=min(strides))
         hcfg, expect = head_cfg(mt, strides)
         B = c.dim("B", lo=1)
